@@ -179,6 +179,12 @@ func LoadProgram(dir string) (*Program, error) {
 		return nil, fmt.Errorf("contracts: %v", err)
 	}
 	pr.Contracts = cs
+	paramAlias = map[string][]string{}
+	for n, fc := range cs.Funcs {
+		if len(fc.ParamNames) > 0 {
+			paramAlias[n] = fc.ParamNames
+		}
+	}
 	_, sp1 := buildSSAFrom(p1.Fset, p1.Types, p1.Syntax, p1.TypesInfo)
 	funcs1 := collectFuncs(sp1)
 	src, undec := generateGhost(p1, funcs1, cs)
@@ -368,10 +374,7 @@ func walkType(e ast.Expr, f func(string)) {
 func targetParams(tp *typePrinter, fn *ssa.Function) []ghostParam {
 	var ps []ghostParam
 	for i, p := range fn.Params {
-		n := p.Name()
-		if n == "" || n == "_" {
-			n = fmt.Sprintf("p%d", i)
-		}
+		n := paramNameOf(fn, i)
 		ps = append(ps, ghostParam{n, tp.str(p.Type())})
 	}
 	for _, fv := range fn.FreeVars {
@@ -379,7 +382,7 @@ func targetParams(tp *typePrinter, fn *ssa.Function) []ghostParam {
 		if pt, ok := t.(*types.Pointer); ok && !keepPtrFV(pt.Elem()) {
 			t = pt.Elem()
 		}
-		ps = append(ps, ghostParam{fv.Name(), tp.str(t)})
+		ps = append(ps, ghostParam{freeVarNameOf(fn, fv), tp.str(t)})
 	}
 	return ps
 }
